@@ -108,6 +108,7 @@ CHECKS["C09"] = dict(
     obligations=[
         ob("VH_C09_order_lemma", dict(ND=2, NN=2), Q, covers=["done"], bounds="|d|<=2, sibling names 1..2 bytes"),
         ob("VH_C09_order_lemma", dict(ND=3, NN=3), T, covers=["done"], bounds="|d|<=3, sibling names 1..3 bytes"),
+        ob("VH_C09_subdir", {}, covers=["done", "hardlink", "absolute-symlink"], bounds="two sub-roots with symbolic one-byte names, inner views {f, g in (none | hard link to f | absolute symlink | relative symlink)}"),
         ob("VH_C09_walk", {}, covers=["done", "hardlink", "hardlinked-symlink"], bounds="model-FS tree {a/, a/x, a-b, a.c, b?}: a-b regular/symlink/char device, every hard-link grouping of the regular files, symbolic permission bits/uid/gid"),
     ],
 )
@@ -229,10 +230,11 @@ CHECKS["C14"] = dict(
 
 CHECKS["C15"] = dict(
     level_text="The real copy.Copy is executed on the model file system over a shared name universe in which every (source type, destination type) pair collides; the result is compared with an executable overlay model written from the statement (directories merge, non-directory replaces non-directory of any type, unrelated entries stay, a directory lands inside an existing directory or a path ending in a separator unless directory-contents mode is on, directory vs non-directory is an error leaving the obstacle unless always-replace), and a successful copy is repeated to show the tree does not change.",
-    level_note="Bounds: source t/{x in file|dir(+children c, k)|symlink [, y]}, destination t/ optional with {x [, y] in absent|file|dir(+children)|symlink|fifo, unrelated z}, dst argument in {t, t/, n/m}, flags dir-contents and always-replace, symbolic file bytes. The attributes of a target directory prepared in directory-contents mode are not asserted; the repeat is asserted where it resolves to the same target. Wildcard sources are outside. " + FS_TRUST + BASE_TRUST,
-    assumptions=["names are concrete, file bytes symbolic", "wildcards (union of matches) are not covered"],
+    level_note="Bounds: source t/{x in file|dir(+children c, k)|symlink [, y]}, destination t/ optional with {x [, y] in absent|file|dir(+children)|symlink|fifo, unrelated z}, dst argument in {t, t/, n/m}, flags dir-contents and always-replace, symbolic file bytes. The attributes of a target directory prepared in directory-contents mode are not asserted; the repeat is asserted where it resolves to the same target. " + FS_TRUST + BASE_TRUST,
+    assumptions=["names are concrete, file bytes symbolic", "wildcards: one pattern shape (prefix*) in the last component"],
     obligations=[
         ob("VH_C15_overlay", dict(Y=0), pkg=COPY, covers=["conflict", "overlay", "idempotent"], bounds="one colliding name x, all type pairs"),
+        ob("VH_C15_wildcard", {}, pkg=COPY, covers=["no-match", "matches"], bounds="wildcard source t/x* over names x1, x2, y each in {absent, file, dir with children, symlink}, target directory absent / empty / holding a colliding file"),
         ob("VH_C15_overlay", dict(Y=1), T, pkg=COPY, covers=["conflict", "overlay", "idempotent"], bounds="two colliding names x, y", max_paths=600000),
     ],
 )
